@@ -31,6 +31,7 @@ THEOREMS = [
     "c04_any_choice",
     "c04_session_records_answer_seq_any_choice",
     "c04_earlier_answers_unaffected",
+    "c04_handlers_independent",
     "c04_handshake_sound_any_choice",
     "c04_versionlib_translated",
     "c04_negotiate_first_common",
@@ -49,7 +50,8 @@ RULE = (
     "(3 k quick / 500 k thorough), mutations of the supported versions, malformed strings, non-strings of "
     "every JSON type, absent in 4 shapes}, and sequences of 2-3 initialize requests on one handler (answers and session records read right after "
     "each step AND again after the whole sequence; answers only serialised after the sequence; requests handed over concurrently "
-    "from a task group) with and without a carried "
+    "from a task group; 2-3 handlers alive at once with equal message ids; the same unacceptable value 2-4 times in a row; a session "
+    "store raising every exception class; handler variants) with and without a carried "
     "(live or stale) session id, through the real handle_message, compared with serverAnswer on the regenerated constants; "
     "handshake: the real send_initialize against the real handler over an in-memory pipe (messages cross as JSON text) for every client "
     "list of length<=3 over 3 real + 3 invented versions x 9 preferred, compared with the composed model; "
@@ -73,6 +75,13 @@ NON_STRINGS = [0, 1, -1, 123, 20250618, 2025.0618, 1.5, True, False, None, [], [
                {"version": "2025-06-18"}, {"protocolVersion": "2025-06-18"}, 2**70, -(2**63),
                0.0, -0.0, 1.0, 7, 7.0, [""], [0], {"": ""}, [[]], 1e300]
 TWIN_STRINGS = ["0", "1", "7", "7.0", "1.0", "0.0", "True", "true", "False", "false", "null", "None", "[]", "{}", "NaN"]
+SYNTAX_TEXT = [  # text that looks like the syntax being produced or parsed (JSON, JSON-RPC, the date pattern, format strings)
+    '{"protocolVersion":"2025-06-18"}', '"2025-06-18"', "'2025-06-18'", '2025-06-18","protocolVersion":"1999-01-01', "[NaN]", ":Infinity,",
+    "values=[1.0, NaN]", '["2025-06-18"]', '{"jsonrpc":"2.0","id":1,"result":{"protocolVersion":"2025-06-18"}}', "2025-06-18}", "{2025-06-18",
+    "^\\d{4}-\\d{2}-\\d{2}$", "\\d{4}-\\d{2}-\\d{2}", "^2025-06-18$", "2025-06-18|2024-11-05", ".*", "2025-..-18", "%Y-%m-%d", "${version}", "{version}",
+    "2025-06-18, 2025-03-26 and 2024-11-05", "2025-06-18 and 2024-11-05", "data: 2025-06-18", "event: message", "id: 1", "retry: 0", ":", ": x",
+    "Content-Length: 10", "2025-06-18\\n", "\\u0032025-06-18", "protocolVersion", "protocolVersion: 2025-06-18", "null", "undefined",
+]
 ABSENT_SHAPES = ["no-member", "empty-params", "null-params", "no-params", "lookalikes"]
 
 
@@ -139,9 +148,17 @@ class Server(Suite):
             if r["k"] != "absent":
                 for layout in ("version-first", "extras"):
                     out.append({"req": dict(r, layout=layout)})
+        # text that looks like syntax, as a requested version and as the client's name
+        out += [{"req": {"k": "str", "s": s}} for s in SYNTAX_TEXT]
+        # option x error path: every handler variant (capabilities, a non-empty method registry, hostile serverInfo) x every request kind
+        for hv in V.HANDLER_VARIANTS[1:]:
+            for r in dress + [{"k": "str", "s": s_} for s_ in sup[:2] + SYNTAX_TEXT[:6] + V.HOSTILE_TEXT[:6]] + [{"k": "json", "v": v} for v in NON_STRINGS[:12]] \
+                    + [{"k": "absent", "shape": sh} for sh in ABSENT_SHAPES]:
+                out.append({"req": r, "hv": hv})
         rng = ctx.sub_rng("c04-server", budget)
         out += [{"req": {"k": "str", "s": s}} for s in mutations(rng, sup, 300 if budget == "quick" else 5000)]
         out += self.sequences(sup)
+        out += self.sequences2(sup, budget)
         out += [{"req": {"k": "str", "s": d.isoformat()}} for d in all_dates()]
         ctx.exhaustive_parts.append("server-answer: every calendar date 1925-01-01..2124-12-31")
         ctx.exhaustive_parts.append(
@@ -150,6 +167,69 @@ class Server(Suite):
         n = {"quick": 3000, "search": 50000}.get(budget, 500000)
         for _ in range(n):  # dddd-dd-dd strings that need not be calendar dates
             out.append({"req": {"k": "str", "s": "%04d-%02d-%02d" % (rng.randrange(10000), rng.randrange(100), rng.randrange(100))}})
+        return V.assign_debug(out, self.static_kind, ctx=ctx, name=self.name)
+
+    @staticmethod
+    def static_kind(case):
+        """scenario kind computable before running (for the DEBUG-logging share)"""
+        if "steps" in case:
+            return ("seq", len(case["steps"]) if len(case["steps"]) <= 4 else "long", tuple(dict.fromkeys(str(s_.get("carry")) for s_ in case["steps"])),
+                    case.get("read"), bool(case.get("concurrent")), case.get("handlers"), case.get("hv"), bool(case.get("store_raises")),
+                    tuple(sorted({b for s_ in case["steps"] for b in (s_.get("between") or [])})))
+        r = case["req"]
+        return ("one", r["k"], r.get("shape"), r.get("id"), r.get("ci"), r.get("layout"), case.get("hv"),
+                type(r.get("v")).__name__ if r["k"] == "json" else None)
+
+    @staticmethod
+    def sequences2(sup, budget):
+        """Hardening sweep 2: several handlers alive at once, the same failure repeated, a faulty session store, carried ids of other
+        types, handler variants — all on sequences."""
+        good = [{"k": "str", "s": s_} for s_ in reversed(sup)]
+        bad = [{"k": "str", "s": "1999-12-31"}, {"k": "str", "s": ""}, {"k": "str", "s": "garbage"}, {"k": "str", "s": sup[0] + "\n"},
+               {"k": "json", "v": 0}, {"k": "json", "v": None}, {"k": "json", "v": []}, {"k": "json", "v": {}}, {"k": "json", "v": True},
+               {"k": "absent", "shape": "no-member"}, {"k": "str", "s": '{"protocolVersion":"2025-06-18"}'}]
+        reqs = good[:2] + bad[:1] + bad[4:5]
+        out = []
+        # D. the SAME unacceptable value 2, 3, 4 times in a row (also after / before a good one), then a supported one
+        for b in bad:
+            for k in (2, 3, 4):
+                for g in good[:2]:
+                    for carry in (None, "prev"):
+                        for read in ("both", "late"):
+                            if k == 4 and (carry or read == "late") and budget == "quick":
+                                continue
+                            steps = [{"req": b, "carry": (carry if i else None)} for i in range(k)] + [{"req": g, "carry": carry}]
+                            out.append({"steps": steps, "read": read})
+                out.append({"steps": [{"req": good[0], "carry": None}] + [{"req": b, "carry": None} for _ in range(k)] + [{"req": good[1], "carry": None}]})
+        for b in bad[:6]:
+            for b2 in bad[:6]:
+                if b is not b2:  # two different unacceptable values alternating
+                    out.append({"steps": [{"req": x, "carry": None} for x in (b, b2, b, b2, good[0])]})
+        # B. two and three handlers alive in one process, used alternately with the SAME message ids; a session id of the other handler
+        for a in reqs:
+            for b in reqs:
+                for c in reqs:
+                    out.append({"handlers": 2, "steps": [{"req": a, "h": 0}, {"req": b, "h": 1}, {"req": c, "h": 0, "carry": "prev"},
+                                                         {"req": a, "h": 1, "carry": "other-handler"}]})
+                out.append({"handlers": 2, "steps": [{"req": a, "h": 0}, {"req": b, "h": 1}, {"req": b, "h": 0}, {"req": a, "h": 1}], "read": "late"})
+                out.append({"handlers": 3, "steps": [{"req": a, "h": 2}, {"req": b, "h": 0}, {"req": a, "h": 1}, {"req": b, "h": 2}, {"req": b, "h": 1, "carry": "other-handler"}]})
+        for b in bad:  # the same unacceptable value once per handler (state must not be shared between handlers)
+            out.append({"handlers": 2, "steps": [{"req": b, "h": 0}, {"req": b, "h": 1}, {"req": b, "h": 0}, {"req": good[0], "h": 1}]})
+        # E. carried session ids of other types; C. handler variants x sequences incl. a registered method that raises in between
+        for a in reqs:
+            for b in reqs:
+                for carry in ("int", "true"):
+                    out.append({"steps": [{"req": a, "carry": None}, {"req": b, "carry": carry}]})
+                for hv in V.HANDLER_VARIANTS[1:]:
+                    out.append({"hv": hv, "steps": [{"req": a, "carry": None}, {"req": b, "carry": "prev"}, {"req": a, "carry": None}], "read": "late"})
+                out.append({"hv": "registry", "steps": [{"req": a, "carry": None}, {"req": b, "carry": "prev", "between": ["raising-method", "tools-list"]},
+                                                        {"req": a, "carry": None, "between": ["raising-method"]}]})
+        # F. the session store raises (every exception class, also one without a text) for the first 1-2 initializes, then works
+        for cls in V.EXC_CLASSES:
+            for times in (1, 2):
+                for a in (good[0], bad[0], bad[4]):
+                    out.append({"store_raises": {"cls": cls, "times": times},
+                                "steps": [{"req": a, "carry": None}, {"req": a, "carry": None}, {"req": good[1], "carry": None}, {"req": a, "carry": "prev"}]})
         return out
 
     @staticmethod
@@ -226,10 +306,12 @@ class Server(Suite):
             pos = {"prev": lambda i: i - 1, "first": lambda i: 0, "bogus": lambda i: 999, "empty": lambda i: 998,
                    "deleted": lambda i: i - 1, "cleared": lambda i: i - 1}
             obs = (getattr(self, "_last", {}).get(id(case)) or {}).get("steps") or []
+            pos.update({"int": lambda i: 7, "true": lambda i: 1, "other-handler": lambda i: 997})
+            skip = (case.get("store_raises") or {}).get("times", 0)  # the initializes the faulty store turns into errors: not modelled
             return {"m": "version", "op": "serverseq",
                     "steps": [{"req": self.model_req(st["req"]), "carry": pos[st["carry"]](i) if st.get("carry") else None,
-                               "choice": self.choice(obs[i]) if i < len(obs) else None}
-                              for i, st in enumerate(case["steps"])]}
+                               "choice": self.choice(obs[i]) if i < len(obs) else None, "h": st.get("h", 0)}
+                              for i, st in enumerate(case["steps"])][skip:]}
         if case["req"].get("id") is not None and V.REQUEST_IDS[case["req"]["id"]] is None:
             return None  # initialize sent as a notification: there is no answer to compare (oracle only: the session, if any)
         return {"m": "version", "op": "server", "req": self.model_req(case["req"]),
@@ -237,9 +319,13 @@ class Server(Suite):
 
     def compare(self, case, o, m):
         if "steps" in case:
-            if len(o["steps"]) != len(m["steps"]):
+            skip = (case.get("store_raises") or {}).get("times", 0)
+            for so in o["steps"][:skip]:
+                if so.get("kind") != "error" or so.get("has_session") or so.get("late", {}).get("has_session"):
+                    return "a failing session store did not turn the initialize into an error without a session"
+            if len(o["steps"]) - skip != len(m["steps"]):
                 return "step count differs"
-            for so, sm in zip(o["steps"], m["steps"]):
+            for so, sm in zip(o["steps"][skip:], m["steps"]):
                 if so.get("session_superseded"):
                     d = None if (so.get("kind") == "result" and so.get("answered") == sm["answered"]) else "answered version differs"
                 else:
@@ -295,8 +381,11 @@ class Server(Suite):
                         carried = {None: "no session id", "prev": "the session id of the previous initialize",
                                    "first": "the session id of the first initialize", "bogus": "a session id never issued",
                                    "empty": "an empty session id", "deleted": "the id of the previous session, deleted meanwhile",
-                                   "cleared": "the id of the previous session, after all sessions were cleared"}[so.get("carried")]
+                                   "cleared": "the id of the previous session, after all sessions were cleared", "int": "the session id 7",
+                                   "true": "the session id true", "other-handler": "a session id issued by another handler"}[so.get("carried")]
                         key += "-on-reinitialize"
+                        if case.get("handlers"):
+                            what = f"[{case['handlers']} handlers alive in one process; this request went to handler {st.get('h', 0)}] " + what
                         what = (f"initialize no. {i + 1} on one handler (earlier requests: "
                                 f"{', '.join(describe(s['req']) for s in case['steps'][:i])}; carrying {carried}): " + what)
                     return (key, what, exp)
@@ -333,12 +422,16 @@ class Server(Suite):
             n = len(case["steps"])
             extra = "".join(sorted({"/between:" + "+".join(s["between"]) for s in case["steps"] if s.get("between")}
                                    | {"/same-object" for s in case["steps"] if s.get("same_object")}))
+            extra += ("/%d-handlers" % case["handlers"] if case.get("handlers") else "") + ("/" + case["hv"] if case.get("hv") else "") \
+                + ("/store-raises:" + case["store_raises"]["cls"] if case.get("store_raises") else "")
             mode = "/concurrent" if case.get("concurrent") else ("/answers-read-after-the-sequence" if case.get("read") == "late" else "")
             return "sequence/%s/%s/%s%s%s" % (n if n <= 3 else "long", "+".join(dict.fromkeys(str(s.get("carry")) for s in case["steps"][1:])),
                                               reuse, extra, mode)
         r = case["req"]
         dress = "".join(["/id:" + type(V.REQUEST_IDS[r["id"]]).__name__ + ("-falsy" if not V.REQUEST_IDS[r["id"]] else "") if r.get("id") is not None else "",
                          "/clientInfo:" + r["ci"] if r.get("ci") else "", "/layout:" + r["layout"] if r.get("layout") else ""])
+        if case.get("hv"):
+            dress += "/handler:" + case["hv"]
         if dress:
             return "dressed/" + r["k"] + dress + "/" + str(o.get("kind"))
         if r["k"] == "absent":
@@ -403,7 +496,8 @@ class Handshake(Suite):
         rng = ctx.sub_rng("c04-multi", budget)
         for _ in range(60 if budget == "quick" else 600):
             out.append({"clients": [rng.choice(clients) for _ in range(3)]})
-        return out
+        out = [dict(c) for c in out]
+        return V.assign_debug(out, lambda c: ("multi", len(c["clients"])) if "clients" in c else ("one", c.get("buf"), c["sup"] is None, c["pref"] is None), ctx=ctx, name=self.name)
 
     def impl_batch(self, cases):
         obs = V.run_handshake(cases)
@@ -579,13 +673,13 @@ class VersionLibrary(Informational):
             "version-library: every pair of client/server lists of length<=%d over %d versions (duplicates and empty lists included); "
             "every calendar date of %s; a pool of %d well-formed / malformed / Unicode-digit / whitespace versions against a core of %d, "
             "both ways" % (n, len(uni[:5] if quick else uni), "2024..2026" if quick else "1995..2034", len(pool), len(core)))
-        return out
+        return V.assign_debug(out, lambda c: c["op"], ctx=ctx, name=self.name)
 
     def impl_batch(self, cases):
         return V.run_versionlib(cases)
 
     def model_line(self, case):
-        return dict(case, m="versionlib")
+        return dict({k: v for k, v in case.items() if k != "debug"}, m="versionlib")
 
     def differs(self, case, o, m):
         op = case["op"]
